@@ -170,7 +170,8 @@ class FormRunner:
             itg = self.cform.form_integrals[i]
             ent = None if itype == "cell" else list(entity[:width])
             pm = None
-            if itype == "interior_facet":
+            if itype in ("interior_facet", "ridge"):
+                # ridge kernels index their (possibly permuted) tables by quadrature_permutation[0] as well
                 pm = list(perm) if perm is not None else [0, 0]
             elif perm is not None:
                 pm = list(perm)
